@@ -103,15 +103,29 @@ func monitorRenew(sc NScenario, o nOutcome, dist func(string)) (vs []viol) {
 		add("spiffe-panic", "panic in the real code: %s", o.Panic)
 	}
 	if o.Hang != "" {
-		add("rotation-hang", "%s", o.Hang)
+		if o.HangInFlight {
+			add("get-blocked-by-renewal-in-flight", "%s: a renewal request was outstanding at the issuer; GetX509SVID must keep returning the current SVID without blocking", o.Hang)
+		} else {
+			add("rotation-hang", "%s", o.Hang)
+		}
 		return vs
 	}
 	if len(o.Reqs) == 0 {
 		add("no-initial-request", "Run made no issuer request")
 		return vs
 	}
-	good := func(k int) bool { return sc.good(o.Reqs[k]) }
+	answered := func(k int) bool { return !o.Reqs[k].Answered.IsZero() }
+	good := func(k int) bool { return answered(k) && sc.good(o.Reqs[k]) }
 	// initial fetch
+	if !answered(0) {
+		// the issuer never answered the initial request: nothing to judge but that nothing is served
+		for j, got := range o.Served {
+			if got != "none" {
+				add("served-not-latest-good", "observation %d: GetX509SVID served %s although the initial fetch has not finished", j, got)
+			}
+		}
+		return vs
+	}
 	if !good(0) {
 		if !o.InitErr || o.RunRet != "err" {
 			add("run-swallowed-initial-error", "initial fetch failed but Run did not return an error (ret=%s)", o.RunRet)
@@ -128,7 +142,7 @@ func monitorRenew(sc NScenario, o nOutcome, dist func(string)) (vs []viol) {
 	for j, got := range o.Served {
 		want := "none"
 		for k := range o.Reqs {
-			if good(k) && !o.Reqs[k].Stamp.After(o.StepEnd[j]) {
+			if good(k) && k < o.NAns[j] {
 				want = strconv.Itoa(k)
 			}
 		}
@@ -145,7 +159,7 @@ func monitorRenew(sc NScenario, o nOutcome, dist func(string)) (vs []viol) {
 				continue
 			}
 			r := half(o.Reqs[k].NB, o.Reqs[k].NA)
-			tk := o.Reqs[k].Stamp
+			tk := o.Reqs[k].Answered // the certificate is in hand when its fetch returns
 			var tau time.Time
 			var stepLen time.Duration
 			found := false
@@ -218,10 +232,10 @@ func monitorRenew(sc NScenario, o nOutcome, dist func(string)) (vs []viol) {
 		}
 		// failed renewals retried every 10 s (clause 4)
 		for f := 1; f < len(o.Reqs); f++ {
-			if good(f) {
+			if good(f) || !answered(f) {
 				continue
 			}
-			due := o.Reqs[f].Stamp.Add(10 * time.Second)
+			due := o.Reqs[f].Answered.Add(10 * time.Second) // 10 s after the failed fetch returned
 			var tau time.Time
 			found := false
 			for _, e := range o.StepEnd {
@@ -233,14 +247,14 @@ func monitorRenew(sc NScenario, o nOutcome, dist func(string)) (vs []viol) {
 			if f+1 < len(o.Reqs) {
 				nx := o.Reqs[f+1].Stamp
 				if nx.Before(due) {
-					add("retry-not-10s", "request %d failed at %v; retried at %v, earlier than 10 s", f, rel(o.Reqs[f].Stamp), rel(nx))
+					add("retry-not-10s", "request %d failed (returned at %v); retried at %v, earlier than 10 s", f, rel(o.Reqs[f].Answered), rel(nx))
 				} else if found && !nx.Equal(tau) {
-					add("retry-not-10s", "request %d failed at %v; first wake at/after +10 s is %v but the retry is stamped %v", f, rel(o.Reqs[f].Stamp), rel(tau), rel(nx))
+					add("retry-not-10s", "request %d failed (returned at %v); first wake at/after +10 s is %v but the retry is stamped %v", f, rel(o.Reqs[f].Answered), rel(tau), rel(nx))
 				} else {
 					dist("retry:checked")
 				}
 			} else if found {
-				add("retry-not-10s", "request %d failed at %v; clock reached %v (>= +10 s) but no retry was made", f, rel(o.Reqs[f].Stamp), rel(tau))
+				add("retry-not-10s", "request %d failed (returned at %v); clock reached %v (>= +10 s) but no retry was made", f, rel(o.Reqs[f].Answered), rel(tau))
 			}
 		}
 	}
@@ -293,7 +307,7 @@ func monitorRenew(sc NScenario, o nOutcome, dist func(string)) (vs []viol) {
 		for j, p := range o.Pub {
 			want := -1
 			for k := range o.Reqs {
-				if good(k) && !o.Reqs[k].Stamp.After(o.StepEnd[j]) {
+				if good(k) && k < o.NAns[j] {
 					want = k
 				}
 			}
@@ -310,7 +324,7 @@ func monitorRenew(sc NScenario, o nOutcome, dist func(string)) (vs []viol) {
 }
 
 func scString(sc NScenario) string {
-	s := fmt.Sprintf("dir=%v script=", sc.Dir)
+	s := fmt.Sprintf("dir=%v hold=%v script=", sc.Dir, sc.Hold)
 	for _, it := range sc.Script {
 		if it.Kind == kOK || it.Kind == kAnchorErr || it.Kind == kWriteErr || it.Kind == kNoID {
 			s += fmt.Sprintf("%s(%v,%v) ", it.Kind, time.Duration(it.A), time.Duration(it.B))
@@ -320,7 +334,9 @@ func scString(sc NScenario) string {
 	}
 	s += "steps="
 	for _, st := range sc.Steps {
-		if st.W {
+		if st.Ans {
+			s += "answer "
+		} else if st.W {
 			s += "wake "
 		} else if st.D == 0 {
 			s += fmt.Sprintf("anch%d ", st.Anch)
